@@ -60,7 +60,17 @@ def expected(chk, gradp, reactions, floor):
     return outcheck.Exp(3, names, chk.time, chk.lo, chk.hi, chk.dx, chk.ncell, chk.boxes, data, mins, maxs)
 
 
-def run_conv(mods, chk, opts, ctx, canary=False):
+_PRIOR = {}
+
+
+def prior_chk():
+    """Another, tiny checkpoint with three species (converted first in the history runs)."""
+    if 'c' not in _PRIOR:
+        _PRIOR['c'] = RefChk('d', (2, 2, 2), [tile((0, 0, 0), (1, 1, 1), [[], [], []])], nsp=3, ghost=1)
+    return _PRIOR['c']
+
+
+def run_conv(mods, chk, opts, ctx, canary=False, history=False):
     gradp, reactions, floor, source, default_out = opts
     mod = mods['amr_kitchen.chk2plt.chk2plt']
     Taster = mods['amr_kitchen.taste.taste'].Taster
@@ -88,7 +98,18 @@ def run_conv(mods, chk, opts, ctx, canary=False):
     if not default_out:
         kw['pltdir'] = 'outplt'
     out = '/work/run/plt00005' if default_out else '/work/outplt'
+    if history:
+        prior_chk().write_symfs(fs, '/work/other/chk00009')
+        fs.audit.clear()
+        what = "chk2plt('other/chk00009', species=['H2', 'O2', 'N2'], ...) [3 species]; " + what
     with patch.Patched(mods, fs), common.quiet():
+        if history:
+            # a history in one process: a checkpoint with another species count is converted first
+            try:
+                mod.chk2plt('other/chk00009', gradp=False, species_reactions=False, floor_massfracs=True, species=['H2', 'O2', 'N2'], pltdir='outplt0')
+            except Exception:
+                pass
+            fs.audit.clear()
         try:
             mod.chk2plt('run/chk00005', gradp=gradp, species_reactions=reactions, floor_massfracs=floor, **kw)
         except Exception as e:
@@ -167,6 +188,16 @@ def run_case(case):
                 if sig not in viol:
                     viol[sig] = {'signature': sig, 'what': msg[:400], 'opts': list(opts), 'model': obl.failed[0][1] or ctx.model()}
 
+    for opts in [(False, False, True, 'list', False), (True, True, True, 'list', False)][:1 if common.TIER == 'quick' else 2]:
+        def hpath(ctx, opts=opts):
+            return run_conv(mods, chk, opts, ctx, history=True)
+        results, exhaustive, stats = core.explore(hpath, max_paths=8)
+        res.add_explore(results, exhaustive, stats)
+        for ctx, obl in results:
+            res.add_obl(obl)
+            if obl.failed and not ctx.flags and 'C17/history' not in viol:
+                viol['C17/history'] = {'signature': 'C17/history', 'what': obl.failed[0][0][:400], 'opts': list(opts), 'model': obl.failed[0][1] or ctx.model(), 'history': True}
+
     def canary(ctx):
         return run_conv(mods, chk, (False, False, False, 'list', False), ctx, canary=True)
     cres, _, _ = core.explore(canary, max_paths=4)
@@ -183,6 +214,9 @@ def run_case(case):
         fs = SymFS()
         chk.write_symfs(fs, '/work/run/chk00005')
         inputs = {'run/chk00005': (fs, '/work/run/chk00005')}
+        if v.get('history'):
+            prior_chk().write_symfs(fs, '/work/other/chk00009')
+            inputs['other/chk00009'] = (fs, '/work/other/chk00009')
         kw = "species=%r" % (SPECIES,)
         if source == 'plotfile':
             Ref('t', 3, ['temp', 'Y(H2)', 'density', 'Y(O2)'], (1, 1, 1), [[((0, 0, 0), (0, 0, 0))]]).write_symfs(fs, '/work/run/plt_ref')
@@ -192,6 +226,7 @@ def run_case(case):
                "def tree_hash(p):\n    h = hashlib.sha1()\n    for r, ds, fs_ in sorted(os.walk(p)):\n        for f in sorted(fs_):\n            h.update(os.path.join(r, f).encode()); h.update(open(os.path.join(r, f), 'rb').read())\n    return h.hexdigest()\n"
                "before = tree_hash('run/chk00005')\n"
                "with contextlib.redirect_stdout(io.StringIO()), contextlib.redirect_stderr(io.StringIO()):\n"
+               + ("    try:\n        chk2plt('other/chk00009', gradp=False, species_reactions=False, floor_massfracs=True, species=['H2', 'O2', 'N2'], pltdir='outplt0')\n    except Exception:\n        pass\n" if v.get('history') else '') +
                "    chk2plt('run/chk00005', gradp=%r, species_reactions=%r, floor_massfracs=%r, %s%s)\n"
                "assert tree_hash('run/chk00005') == before, 'the checkpoint was modified'\n"
                % (gradp, reactions, floor, kw, '' if default_out else ", pltdir='outplt'"))
